@@ -51,6 +51,33 @@ pub fn judge(scn: &Scenario, res: &ExecResult, _b: Option<&ExecResult>) -> Vec<V
         }
         return out;
     }
+    // ---- wait recommendations
+    for (ni, nt) in res.nodes.iter().enumerate().take(2) {
+        let mut last_frame: Option<i32> = None;
+        for (r, _, e) in &nt.events {
+            if let Ev::Wait { skip } = e {
+                WAITS.fetch_add(1, Ordering::Relaxed);
+                let Some(c) = nt.calls.iter().find(|c| c.round == *r) else { continue };
+                if c.ahead < 3 || *skip as i32 != c.ahead {
+                    out.push(v("wait-recommendation-wrong", ni, *r, format!("WaitRecommendation {{ skip_frames: {skip} }} drained in round {r} where frames_ahead() is {}", c.ahead)));
+                }
+                if let Some(lf) = last_frame {
+                    if c.cur - lf < 60 {
+                        out.push(v("wait-recommendation-too-frequent", ni, *r, format!("two WaitRecommendations {} frames apart (frames {lf} and {})", c.cur - lf, c.cur)));
+                    }
+                }
+                last_frame = Some(c.cur);
+            }
+        }
+        // a session that is steadily >= 3 ahead must be told so
+        if nt.calls.len() >= 200 {
+            let always_ahead = nt.calls[nt.calls.len() - 150..].iter().all(|c| c.ahead >= 3);
+            let told = nt.events.iter().any(|e| matches!(e.2, Ev::Wait { .. }) && e.0 >= nt.calls[nt.calls.len() - 150].round);
+            if always_ahead && !told {
+                out.push(v("wait-recommendation-missing", ni, 0, "frames_ahead() >= 3 during the last 150 calls but no WaitRecommendation was raised".to_owned()));
+            }
+        }
+    }
     // ---- steady state: the last 30 rounds, after a warm-up of at least 3 s
     let n = a.calls.len().min(b.calls.len());
     if n < 60 {
@@ -95,33 +122,6 @@ pub fn judge(scn: &Scenario, res: &ExecResult, _b: Option<&ExecResult>) -> Vec<V
         if (ca.stats.2 - cb.stats.3).abs() > 1 || (cb.stats.2 - ca.stats.3).abs() > 1 {
             out.push(v("frames-behind-mismatch", 0, ca.round, format!(
                 "session 0 reports local/remote frames behind = {}/{}, session 1 reports {}/{}: one side's local figure must be the other side's remote figure", ca.stats.2, ca.stats.3, cb.stats.2, cb.stats.3)));
-        }
-    }
-    // ---- wait recommendations
-    for (ni, nt) in res.nodes.iter().enumerate().take(2) {
-        let mut last_frame: Option<i32> = None;
-        for (r, _, e) in &nt.events {
-            if let Ev::Wait { skip } = e {
-                WAITS.fetch_add(1, Ordering::Relaxed);
-                let Some(c) = nt.calls.iter().find(|c| c.round == *r) else { continue };
-                if c.ahead < 3 || *skip as i32 != c.ahead {
-                    out.push(v("wait-recommendation-wrong", ni, *r, format!("WaitRecommendation {{ skip_frames: {skip} }} drained in round {r} where frames_ahead() is {}", c.ahead)));
-                }
-                if let Some(lf) = last_frame {
-                    if c.cur - lf < 60 {
-                        out.push(v("wait-recommendation-too-frequent", ni, *r, format!("two WaitRecommendations {} frames apart (frames {lf} and {})", c.cur - lf, c.cur)));
-                    }
-                }
-                last_frame = Some(c.cur);
-            }
-        }
-        // a session that is steadily >= 3 ahead must be told so
-        if nt.calls.len() >= 200 {
-            let always_ahead = nt.calls[nt.calls.len() - 150..].iter().all(|c| c.ahead >= 3);
-            let told = nt.events.iter().any(|e| matches!(e.2, Ev::Wait { .. }) && e.0 >= nt.calls[nt.calls.len() - 150].round);
-            if always_ahead && !told {
-                out.push(v("wait-recommendation-missing", ni, 0, "frames_ahead() >= 3 during the last 150 calls but no WaitRecommendation was raised".to_owned()));
-            }
         }
     }
     out
@@ -187,6 +187,34 @@ pub fn c15() -> i32 {
                 s.probe = 12 * fps as i32;
                 s.checks = CK_C02 | CK_STATS;
                 scns.push(s);
+            }
+        }
+    }
+    // leads that change: the leader gives frames back (stalls) some time after warm-up, or a
+    // loss burst hits the link - the gap between current and confirmed frame shrinks or grows
+    // between two recommendations
+    for lead in [4i32, 7] {
+        for at in (20..200).step_by(if t { 10 } else { 30 }) {
+            for give_back in [1, 3, 5] {
+                for kind in 0..2 {
+                    let mut s = base_scn("c15-varying-lead", "1+1", 12, 0, false, Pred::RepeatLast, Program::Changing, 1);
+                    for i in 0..lead {
+                        s.scripted_stalls.push((1, 2 + i));
+                    }
+                    if kind == 0 {
+                        for i in 0..give_back {
+                            s.scripted_stalls.push((0, at + i));
+                        }
+                    } else {
+                        let (a, b) = (s.peers[0].addr, s.peers[1].addr);
+                        s.outages.push(crate::net::Outage { from: b, to: a, start: at, len: 2 * give_back, classes: crate::wire::CLASS_ALL });
+                    }
+                    s.name = format!("{} fps=60 lead={lead} pattern=0 change-at={at} by={give_back} kind={kind}", s.name);
+                    s.horizon = at + 12;
+                    s.probe = 6 * 60;
+                    s.checks = CK_C02 | CK_STATS;
+                    scns.push(s);
+                }
             }
         }
     }
